@@ -282,9 +282,10 @@ impl CharProperty {
         let r: Vec<_> = cols[0].split("..").collect();
         let start = usize::from_str_radix(String::from(r[0]).trim_start_matches("0x"), 16)?;
         let end = if r.len() > 1 {
-            usize::from_str_radix(String::from(r[1]).trim_start_matches("0x"), 16)? + 1
+            usize::from_str_radix(String::from(r[1]).trim_start_matches("0x"), 16)?
+                .saturating_add(1)
         } else {
-            start + 1
+            start.saturating_add(1)
         };
         if start >= end {
             let msg =
